@@ -308,7 +308,29 @@ func checkMain(args []string, t *testing.T) int {
 		cmd.Stdout = &eb
 		cmd.Env = append(os.Environ(), fmt.Sprintf("GOMAXPROCS=%d", gmp), "GOTRACEBACK=all")
 		r := &wres{crashAt: -1}
-		r.err = cmd.Run()
+		// watchdog: a worker stops starting runs at the deadline, and no single run takes minutes; one
+		// that is still alive long after is hung (a livelock in the simulated code or in the harness).
+		// It is killed and the run it was in is handled like a crashed one - never as a violation by itself.
+		limit := 6 * time.Minute
+		for _, x := range extra {
+			if x == "-deadline" {
+				limit = time.Until(time.UnixMilli(deadline)) + 5*time.Minute
+			}
+		}
+		if err := cmd.Start(); err != nil {
+			r.err = err
+			return r
+		}
+		done := make(chan error, 1)
+		go func() { done <- cmd.Wait() }()
+		select {
+		case r.err = <-done:
+		case <-time.After(limit):
+			_ = cmd.Process.Kill()
+			<-done
+			r.err = fmt.Errorf("watchdog: worker killed after %s without finishing", limit.Round(time.Second))
+			eb.WriteString("\nWATCHDOG: worker killed after " + limit.Round(time.Second).String() + "\n")
+		}
 		r.stderr = eb.String()
 		f, err := os.Open(out)
 		if err == nil {
